@@ -128,7 +128,8 @@ def check_solver_case(case):
     for i in marked_idx:
         cons[i] = cons[i].annotate(SAA())
         marked.append(cons[i])
-    frontends = {"Solver": claripy.Solver, "SolverComposite": claripy.SolverComposite, "SolverCacheless": claripy.SolverCacheless}
+    frontends = {"Solver": claripy.Solver, "SolverComposite": claripy.SolverComposite, "SolverCacheless": claripy.SolverCacheless,
+                 "SolverHybrid": claripy.SolverHybrid, "SolverReplacement": claripy.SolverReplacement}
     s = frontends[case["frontend"]]()
     try:
         for c in cons:
@@ -154,15 +155,12 @@ def check_solver_case(case):
                 # a marked constraint that folded to a plain true/false at construction is not "a constraint" any more
                 if m.op == "BoolV":
                     continue
-                # SolverComposite stores a conjunction as its conjuncts (splitting at add time is its documented
-                # partitioning, not a simplification); the clause is about simplify() rewriting, so And-rooted
-                # constraints are out of scope for the composite.
-                if case["frontend"] == "SolverComposite" and m.op == "And":
-                    continue
                 if id(m) not in live:
                     fails.append((f"saa-rewritten:{case['frontend']}:{opn}", {"constraint": repr(m)[:200], "now": [repr(c)[:80] for c in s.constraints][:6]}))
     except claripy.errors.ClaripyError as e:
         return [], {"classes": ["solver-error:" + type(e).__name__], "nontrivial": False}
+    except Exception as e:  # noqa: BLE001 - a solver that cannot even take the annotated constraint
+        fails.append((f"saa-constraint-crashes:{case['frontend']}:{type(e).__name__}", {"exc": repr(e)[:200]}))
     uniq = {}
     for fp, obs in fails:
         uniq.setdefault(fp, obs)
@@ -182,7 +180,7 @@ def _solver_cases(tier):
     return st.fixed_dictionaries({
         "constraints": st.lists(con, min_size=1, max_size=5),
         "marked": st.lists(st.integers(0, 4), min_size=1, max_size=3, unique=True),
-        "frontend": st.sampled_from(["Solver", "SolverComposite", "SolverCacheless"]),
+        "frontend": st.sampled_from(["Solver", "SolverComposite", "SolverCacheless", "SolverComposite", "SolverHybrid", "SolverReplacement"]),
         "ops": st.lists(st.sampled_from(["simplify", "simplify", "eval", "max", "min", "branch", "satisfiable"]), min_size=1, max_size=5),
         "spell": st.integers(0, 2**16),
     })
